@@ -636,8 +636,10 @@ fn schedules(run: &Run, level: usize, bound: usize, wall_cap: f64, t0: Instant) 
     let mut jobs_seen = 0usize;
     let fails: Mutex<Vec<(Vec<usize>, String)>> = Mutex::new(vec![]);
     let mut distinct_orders: BTreeSet<Vec<usize>> = BTreeSet::new();
+    let mut first = true;
     while !frontier.is_empty() {
-        if t0.elapsed().as_secs_f64() > wall_cap {
+        // the FIFO schedule always runs; the cap applies to the deviations
+        if !std::mem::replace(&mut first, false) && t0.elapsed().as_secs_f64() > wall_cap {
             run.cap_hit(&format!("schedules level {level}: wall cap {wall_cap}s with {} schedule prefixes unexplored", frontier.len()));
             break;
         }
@@ -645,7 +647,7 @@ fn schedules(run: &Run, level: usize, bound: usize, wall_cap: f64, t0: Instant) 
             &frontier,
             || db::new_wallet(&u, 4, false),
             |w, prefix| {
-                if t0.elapsed().as_secs_f64() > wall_cap + 5.0 {
+                if !prefix.is_empty() && t0.elapsed().as_secs_f64() > wall_cap + 5.0 {
                     return None;
                 }
                 match run_schedule(&u, &cx, w, &snap, prefix) {
@@ -823,8 +825,8 @@ pub fn run(args: &Args) -> i32 {
     // (c)
     match args.tier {
         Tier::Quick => {
-            schedules(&run, 0, 99, 40.0, t0);
-            schedules(&run, 1, 1, 50.0, t0);
+            schedules(&run, 0, 99, 32.0, t0);
+            schedules(&run, 1, 1, 42.0, t0);
         }
         Tier::Thorough => {
             schedules(&run, 0, 99, 200.0, t0);
